@@ -7,6 +7,10 @@ import AnsiProofs.Lemmas.Basic
   (4) induction on the character index with a relation between the active lists.
 -/
 
+namespace ConcatL
+
+open Fmts
+
 namespace Fmts
 
 theorem get?_erase {f : Fmts} (h : SortedKeys f) (k j : Nat) :
@@ -118,3 +122,1537 @@ theorem UB_mono {hi hi' : Nat} {f : Fmts} (h : UB hi f) (hle : hi ≤ hi') : UB 
   fun x hx => Nat.lt_of_lt_of_le (h x hx) hle
 
 end Fmts
+
+/-! ## `retarget` computes a `map` and a `filter` -/
+
+abbrev Pend := List (Setting × Setting)
+
+def subst (P : Pend) (r : Setting) : Setting :=
+  match P.find? (fun p => p.1.id == r.id) with
+  | some p => p.2
+  | none => r
+
+def pendFilter (P : Pend) (rem : List Setting) : Pend := P.filter (fun p => !hasId rem p.1.id)
+
+def matchIdx (inl : List Setting) (i : Nat) : List Nat :=
+  (inl.zipIdx.filter (fun p => p.1.id == i)).map (·.2)
+
+theorem findRefs_nil (inl : List Setting) : findRefs [] inl = [] := rfl
+
+theorem findRefs_cons (f : Setting) (find inl : List Setting) :
+    findRefs (f :: find) inl =
+      (matchIdx inl f.id).map (fun i2 => (0, i2)) ++ (findRefs find inl).map (fun p => (p.1 + 1, p.2)) := by
+  unfold findRefs matchIdx
+  rw [List.zipIdx_cons, List.map_cons, List.flatten_cons, List.zipIdx_succ]
+  simp only [List.map_map, List.map_flatten]
+  congr 2
+  apply List.map_congr_left
+  intro x _
+  simp [Function.comp, List.map_map]
+
+def rtStep (acc : List Setting × List Setting × List Setting) (fa : Nat × Nat) :
+    List Setting × List Setting × List Setting :=
+  match acc.2.2[fa.1]? with
+  | some r => (acc.1.set fa.2 r, acc.2.1.eraseIdx fa.1, acc.2.2.eraseIdx fa.1)
+  | none => acc
+
+theorem retarget_def (rem find repl : List Setting) (finds : List (Nat × Nat)) :
+    retarget rem find repl finds = finds.reverse.foldl rtStep (rem, find, repl) := rfl
+
+theorem rtStep_shift (L : List (Nat × Nat)) (rem find repl : List Setting) (f r : Setting) :
+    (L.map (fun p => (p.1 + 1, p.2))).foldl rtStep (rem, f :: find, r :: repl) =
+      ((L.foldl rtStep (rem, find, repl)).1, f :: (L.foldl rtStep (rem, find, repl)).2.1,
+        r :: (L.foldl rtStep (rem, find, repl)).2.2) := by
+  induction L generalizing rem find repl with
+  | nil => rfl
+  | cons p L ih =>
+    simp only [List.map_cons, List.foldl_cons]
+    have : rtStep (rem, f :: find, r :: repl) (p.1 + 1, p.2) =
+        ((rtStep (rem, find, repl) p).1, f :: (rtStep (rem, find, repl) p).2.1,
+          r :: (rtStep (rem, find, repl) p).2.2) := by
+      simp only [rtStep, List.getElem?_cons_succ]
+      cases repl[p.1]? <;> simp
+    rw [this, ih]
+
+def matchIdxFrom (off : Nat) (inl : List Setting) (i : Nat) : List Nat :=
+  ((inl.zipIdx off).filter (fun p => p.1.id == i)).map (·.2)
+
+theorem matchIdxFrom_none (off : Nat) (inl : List Setting) (i : Nat) (h : ∀ x ∈ inl, x.id ≠ i) :
+    matchIdxFrom off inl i = [] := by
+  induction inl generalizing off with
+  | nil => rfl
+  | cons y inl ih =>
+    unfold matchIdxFrom
+    rw [List.zipIdx_cons, List.filter_cons]
+    have hy : ¬ (y.id == i) = true := by simpa using h y (by simp)
+    simp only [hy]
+    exact ih (off + 1) (fun x hx => h x (by simp [hx]))
+
+theorem matchIdxFrom_cases (off : Nat) (inl : List Setting) (i : Nat)
+    (hn : (inl.map (·.id)).Nodup) :
+    (matchIdxFrom off inl i = [] ∧ ∀ x ∈ inl, x.id ≠ i) ∨
+    (∃ l1 x l2, inl = l1 ++ x :: l2 ∧ x.id = i ∧ (∀ y ∈ l1, y.id ≠ i) ∧ (∀ y ∈ l2, y.id ≠ i) ∧
+      matchIdxFrom off inl i = [off + l1.length]) := by
+  induction inl generalizing off with
+  | nil => left; exact ⟨rfl, by simp⟩
+  | cons y inl ih =>
+    rw [List.map_cons, List.nodup_cons] at hn
+    by_cases hy : y.id = i
+    · right
+      have hrest : ∀ z ∈ inl, z.id ≠ i := by
+        intro z hz e
+        exact hn.1 (List.mem_map.mpr ⟨z, hz, by simp [e, hy]⟩)
+      refine ⟨[], y, inl, rfl, hy, by simp, hrest, ?_⟩
+      unfold matchIdxFrom
+      rw [List.zipIdx_cons, List.filter_cons]
+      have : (y.id == i) = true := by simp [hy]
+      simp only [this, if_true, List.map_cons, List.length_nil, Nat.add_zero]
+      have := matchIdxFrom_none (off + 1) inl i hrest
+      unfold matchIdxFrom at this
+      rw [this]
+    · have hstep : matchIdxFrom off (y :: inl) i = matchIdxFrom (off + 1) inl i := by
+        unfold matchIdxFrom
+        rw [List.zipIdx_cons, List.filter_cons]
+        have : ¬ (y.id == i) = true := by simpa using hy
+        simp only [this]
+        rfl
+      rcases ih (off + 1) hn.2 with ⟨h1, h2⟩ | ⟨l1, x, l2, e, hx, h1, h2, h3⟩
+      · left
+        refine ⟨by rw [hstep, h1], ?_⟩
+        intro z hz
+        rcases List.mem_cons.mp hz with e | e
+        · subst e; exact hy
+        · exact h2 z e
+      · right
+        refine ⟨y :: l1, x, l2, by simp [e], hx, ?_, h2, ?_⟩
+        · intro z hz
+          rcases List.mem_cons.mp hz with e | e
+          · subst e; exact hy
+          · exact h1 z e
+        · rw [hstep, h3]; simp; omega
+
+theorem matchIdx_eq (inl : List Setting) (i : Nat) : matchIdx inl i = matchIdxFrom 0 inl i := rfl
+
+theorem subst_nil (r : Setting) : subst [] r = r := rfl
+
+theorem subst_cons_ne (f r : Setting) (P : Pend) (x : Setting) (h : x.id ≠ f.id) :
+    subst ((f, r) :: P) x = subst P x := by
+  have : ¬ (f.id == x.id) = true := by simpa using fun e => h e.symm
+  simp [subst, this]
+
+theorem subst_cons_eq (f r : Setting) (P : Pend) (x : Setting) (h : x.id = f.id) :
+    subst ((f, r) :: P) x = r := by
+  simp [subst, h]
+
+theorem retarget_eq (rem find repl : List Setting) (hl : find.length = repl.length)
+    (hn : (rem.map (·.id)).Nodup) :
+    retarget rem find repl (findRefs find rem) =
+      (rem.map (subst (find.zip repl)), (pendFilter (find.zip repl) rem).map (·.1),
+        (pendFilter (find.zip repl) rem).map (·.2)) := by
+  induction find generalizing repl with
+  | nil =>
+    cases repl with
+    | nil =>
+      have : subst [] = id := funext fun _ => rfl
+      simp [retarget_def, findRefs_nil, pendFilter, this]
+    | cons _ _ => simp at hl
+  | cons f find ih =>
+    cases repl with
+    | nil => simp at hl
+    | cons r repl =>
+      have hl' : find.length = repl.length := by simpa using hl
+      have ih' := ih repl hl'
+      rw [retarget_def] at ih'
+      rw [retarget_def, findRefs_cons, List.reverse_append, List.foldl_append, ← List.map_reverse,
+        rtStep_shift, ih', List.zip_cons_cons]
+      rcases matchIdxFrom_cases 0 rem f.id hn with ⟨h1, h2⟩ | ⟨l1, x, l2, e, hx, h1, h2, h3⟩
+      · rw [matchIdx_eq, h1]
+        have hno : hasId rem f.id = false := by
+          simp only [hasId, List.any_eq_false]
+          intro x hx; simpa using h2 x hx
+        simp only [List.map_nil, List.reverse_nil, List.foldl_nil, pendFilter, List.filter_cons, hno]
+        simp only [Bool.not_false, if_true, List.map_cons]
+        congr 1
+        apply List.map_congr_left
+        intro x hx
+        exact (subst_cons_ne f r _ x (h2 x hx)).symm
+      · rw [matchIdx_eq, h3]
+        have hyes : hasId rem f.id = true := by
+          simp only [hasId, List.any_eq_true]
+          exact ⟨x, by simp [e], by simp [hx]⟩
+        simp only [List.map_cons, List.map_nil, List.reverse_cons, List.reverse_nil, List.nil_append,
+          List.foldl_cons, List.foldl_nil, pendFilter, List.filter_cons, hyes]
+        simp only [rtStep, List.getElem?_cons_zero, List.eraseIdx_cons_zero, Bool.not_true]
+        simp only [Bool.false_eq_true, if_false]
+        congr 1
+        subst e
+        simp only [List.map_append, List.map_cons, Nat.zero_add]
+        rw [subst_cons_eq f r _ x hx]
+        have e1 : List.map (subst ((f, r) :: find.zip repl)) l1 = List.map (subst (find.zip repl)) l1 :=
+          List.map_congr_left (fun y hy => subst_cons_ne f r _ y (h1 y hy))
+        have e2 : List.map (subst ((f, r) :: find.zip repl)) l2 = List.map (subst (find.zip repl)) l2 :=
+          List.map_congr_left (fun y hy => subst_cons_ne f r _ y (h2 y hy))
+        rw [e1, e2]
+        have : l1.length = (List.map (subst (find.zip repl)) l1).length := by simp
+        rw [this, List.set_append_right _ _ (Nat.le_refl _)]
+        simp
+
+/-! ## the loop of `__iadd__` in the function representation -/
+
+namespace Fmts
+theorem toFun_cons (k' : Nat) (p : Point) (rest : Fmts) (k : Nat) :
+    toFun ((k', p) :: rest) k = if k' = k then p else if k < k' then {} else toFun rest k := by
+  unfold toFun Fmts.getD
+  rw [get?_cons]
+  by_cases h1 : k' = k
+  · simp [h1]
+  · by_cases h2 : k < k' <;> simp [h1, h2]
+
+theorem toFun_nil (k : Nat) : toFun [] k = {} := rfl
+
+theorem toFun_of_LB {lo : Nat} {f : Fmts} (h : LB lo f) {k : Nat} (hk : k < lo) : toFun f k = {} :=
+  toFun_of_get?_none (get?_of_LB h hk)
+
+theorem toFun_of_UB {hi : Nat} {f : Fmts} (h : UB hi f) {k : Nat} (hk : hi ≤ k) : toFun f k = {} :=
+  toFun_of_get?_none (get?_of_UB h hk)
+end Fmts
+
+theorem pendFilter_nil (P : Pend) : pendFilter P [] = P := by
+  simp [pendFilter, hasId]
+
+/-- pending pairs after the keys `< k` of `g` have been processed -/
+def pendAt (g : Nat → Point) (P : Pend) : Nat → Pend
+  | 0 => P
+  | k + 1 => pendFilter (pendAt g P k) (g k).rem
+
+theorem pendAt_of_empty (g : Nat → Point) (P : Pend) (k : Nat) (h : ∀ j, j < k → (g j).rem = []) :
+    pendAt g P k = P := by
+  induction k with
+  | zero => rfl
+  | succ k ih =>
+    simp only [pendAt]
+    rw [ih (fun j hj => h j (by omega)), h k (by omega), pendFilter_nil]
+
+theorem pendAt_tail (g g' : Nat → Point) (P P' : Pend) (k0 : Nat)
+    (hg : ∀ j, k0 ≤ j → g j = g' j) (h0 : pendAt g P k0 = pendAt g' P' k0) (m : Nat) :
+    pendAt g P (k0 + m) = pendAt g' P' (k0 + m) := by
+  induction m with
+  | zero => exact h0
+  | succ m ih =>
+    show pendFilter (pendAt g P (k0 + m)) (g (k0 + m)).rem = pendFilter (pendAt g' P' (k0 + m)) (g' (k0 + m)).rem
+    rw [ih, hg (k0 + m) (by omega)]
+
+theorem zip_map_fst_snd {α β : Type} (l : List (α × β)) : (l.map (·.1)).zip (l.map (·.2)) = l := by
+  induction l with
+  | nil => rfl
+  | cons x l ih => simp [ih]
+
+/-- one step of the loop at a key that is not yet in the table -/
+theorem iaddStep_none (n : Nat) (actPrev later : List Setting) (st : IaddSt) (k : Nat) (p : Point)
+    (hnone : st.f.get? (k + n) = none) (hlen : st.find.length = st.repl.length)
+    (hn : (p.rem.map (·.id)).Nodup) :
+    iaddStep n actPrev later st (k, p) =
+      { f := st.f.set (k + n) { add := p.add, rem := p.rem.map (subst (st.find.zip st.repl)) },
+        find := (pendFilter (st.find.zip st.repl) p.rem).map (·.1),
+        repl := (pendFilter (st.find.zip st.repl) p.rem).map (·.2) } := by
+  simp only [iaddStep, hnone]
+  rw [retarget_eq _ _ _ hlen hn]
+
+theorem iadd_fold_tail (n : Nat) (actPrev later : List Setting) (L : Fmts) :
+    ∀ (lo : Nat) (st : IaddSt), SortedKeys L → Fmts.LB lo L →
+      (∀ kp ∈ L, (kp.2.rem.map (·.id)).Nodup) →
+      SortedKeys st.f → Fmts.UB (lo + n) st.f → st.find.length = st.repl.length →
+      SortedKeys (L.foldl (iaddStep n actPrev later) st).f ∧
+      (∀ j, j < lo + n → Fmts.toFun (L.foldl (iaddStep n actPrev later) st).f j = Fmts.toFun st.f j) ∧
+      (∀ k, lo ≤ k → Fmts.toFun (L.foldl (iaddStep n actPrev later) st).f (k + n) =
+        { add := (Fmts.toFun L k).add,
+          rem := (Fmts.toFun L k).rem.map (subst (pendAt (Fmts.toFun L) (st.find.zip st.repl) k)) }) ∧
+      (∀ kp ∈ (L.foldl (iaddStep n actPrev later) st).f, kp ∈ st.f ∨ ∃ kp' ∈ L, kp.1 = kp'.1 + n) := by
+  induction L with
+  | nil =>
+    intro lo st _ _ _ hs hub _
+    refine ⟨hs, fun _ _ => rfl, ?_, fun kp h => Or.inl h⟩
+    intro k hk
+    simp only [List.foldl_nil, Fmts.toFun_nil, List.map_nil]
+    exact Fmts.toFun_of_UB hub (by omega)
+  | cons kp L ih =>
+    intro lo st hsL hlb hrem hs hub hlen
+    obtain ⟨k1, p1⟩ := kp
+    have hk1 : lo ≤ k1 := hlb (k1, p1) (by simp)
+    have hnone : st.f.get? (k1 + n) = none := Fmts.get?_of_UB hub (by omega)
+    obtain ⟨st1, hstep, hf1, hP1, hlen1⟩ : ∃ st1, iaddStep n actPrev later st (k1, p1) = st1 ∧
+        st1.f = st.f.set (k1 + n) { add := p1.add, rem := p1.rem.map (subst (st.find.zip st.repl)) } ∧
+        st1.find.zip st1.repl = pendFilter (st.find.zip st.repl) p1.rem ∧
+        st1.find.length = st1.repl.length := by
+      refine ⟨_, iaddStep_none n actPrev later st k1 p1 hnone hlen (hrem (k1, p1) (by simp)), rfl, ?_, ?_⟩
+      · exact zip_map_fst_snd _
+      · simp
+    simp only [List.foldl_cons]
+    rw [hstep]
+    have hs1 : SortedKeys st1.f := by rw [hf1]; exact Fmts.sorted_set hs _ _
+    have hub1 : Fmts.UB (k1 + 1 + n) st1.f := by
+      rw [hf1]
+      exact Fmts.UB_set (Fmts.UB_mono hub (by omega)) (by omega) _
+    have hsL' := Fmts.sorted_tail hsL
+    have hlb' : Fmts.LB (k1 + 1) L := Fmts.LB_tail_of_sorted hsL
+    obtain ⟨r1, r2, r3, r4⟩ := ih (k1 + 1) st1 hsL' hlb' (fun kp h => hrem kp (by simp [h])) hs1 hub1 hlen1
+    refine ⟨r1, ?_, ?_, ?_⟩
+    · intro j hj
+      rw [r2 j (by omega), hf1, Fmts.toFun_set hs]
+      have : ¬ j = k1 + n := by omega
+      simp [this]
+    · intro k hk
+      rw [Fmts.toFun_cons]
+      by_cases hk1' : k1 = k
+      · subst hk1'
+        simp only [if_true]
+        rw [r2 (k1 + n) (by omega), hf1, Fmts.toFun_set hs]
+        simp only [if_true]
+        rw [pendAt_of_empty]
+        intro j hj
+        rw [Fmts.toFun_cons]
+        have h1 : ¬ k1 = j := by omega
+        simp [h1, hj]
+      · simp only [hk1', if_false]
+        by_cases hlt : k < k1
+        · simp only [hlt, if_true]
+          rw [r2 (k + n) (by omega), hf1, Fmts.toFun_set hs]
+          have : ¬ k + n = k1 + n := by omega
+          simp only [this, if_false]
+          rw [Fmts.toFun_of_UB hub (by omega)]
+          rfl
+        · simp only [hlt, if_false]
+          rw [r3 k (by omega), hP1]
+          have e : k = (k1 + 1) + (k - (k1 + 1)) := by omega
+          have : pendAt (Fmts.toFun L) (pendFilter (st.find.zip st.repl) p1.rem) k =
+              pendAt (Fmts.toFun ((k1, p1) :: L)) (st.find.zip st.repl) k := by
+            rw [e]
+            apply pendAt_tail
+            · intro j hj
+              rw [Fmts.toFun_cons]
+              have h1 : ¬ k1 = j := by omega
+              have h2 : ¬ j < k1 := by omega
+              simp [h1, h2]
+            · show pendFilter (pendAt (Fmts.toFun L) _ k1) (Fmts.toFun L k1).rem =
+                pendFilter (pendAt (Fmts.toFun ((k1, p1) :: L)) _ k1) (Fmts.toFun ((k1, p1) :: L) k1).rem
+              rw [Fmts.toFun_of_LB hlb' (by omega : k1 < k1 + 1), pendFilter_nil, pendAt_of_empty,
+                pendAt_of_empty, Fmts.toFun_cons]
+              · simp
+              · intro j hj
+                rw [Fmts.toFun_cons]
+                have h1 : ¬ k1 = j := by omega
+                simp [h1, hj]
+              · intro j hj
+                rw [Fmts.toFun_of_LB hlb' (by omega : j < k1 + 1)]
+          rw [this]
+    · intro kp hkp
+      rcases r4 kp hkp with h | ⟨kp', h1, h2⟩
+      · rw [hf1] at h
+        rcases Fmts.mem_set h with e | e
+        · right; exact ⟨(k1, p1), by simp, by rw [e]⟩
+        · left; exact e
+      · right; exact ⟨kp', by simp [h1], h2⟩
+
+/-! ## the seam step -/
+
+/-- the seam-merge test of `__iadd__` (without the `key == shift` conjunct) -/
+def mergeCond (actPrev later : List Setting) (mine : Point) (add : List Setting) : Bool :=
+  !add.isEmpty && (texts (mine.rem.take add.length) == texts add) &&
+    sameRefs (actPrev.filter (fun s => hasId (mine.rem.take add.length) s.id)) (mine.rem.take add.length) &&
+    !((mine.rem.take add.length).any (fun s => hasId later s.id))
+
+theorem iaddStep_some (n : Nat) (actPrev later : List Setting) (st : IaddSt) (p mine : Point)
+    (hget : st.f.get? (0 + n) = some mine) :
+    iaddStep n actPrev later st (0, p) =
+      if mergeCond actPrev later mine p.add then
+        (if !({ mine with rem := mine.rem.drop p.add.length } : Point).nonEmpty ∧ p.rem.isEmpty then
+          { f := st.f.erase (0 + n), find := p.add, repl := mine.rem.take p.add.length }
+        else
+          { f := st.f.set (0 + n) { add := mine.add, rem := mine.rem.drop p.add.length ++ p.rem },
+            find := p.add, repl := mine.rem.take p.add.length })
+      else { st with f := st.f.set (0 + n) { add := mine.add ++ p.add, rem := mine.rem ++ p.rem } } := by
+  simp only [iaddStep, hget]
+  by_cases h : mergeCond actPrev later mine p.add = true
+  · have h' := h
+    simp only [mergeCond, Bool.and_eq_true] at h'
+    obtain ⟨⟨⟨h1, h2⟩, h3⟩, h4⟩ := h'
+    rw [if_pos ⟨by omega, h1, h2, h3, h4⟩, if_pos h]
+  · have : ¬ (0 + n = n ∧ (!p.add.isEmpty) = true ∧ (texts (mine.rem.take p.add.length) == texts p.add) = true ∧
+        sameRefs (actPrev.filter (fun s => hasId (mine.rem.take p.add.length) s.id)) (mine.rem.take p.add.length) = true ∧
+        (!((mine.rem.take p.add.length).any (fun s => hasId later s.id))) = true) := by
+      rintro ⟨_, h1, h2, h3, h4⟩
+      apply h
+      simp only [mergeCond, Bool.and_eq_true]
+      exact ⟨⟨⟨h1, h2⟩, h3⟩, h4⟩
+    rw [if_neg this, if_neg h]
+
+theorem mergeCond_empty (actPrev later add : List Setting) : mergeCond actPrev later {} add = false := by
+  cases add with
+  | nil => simp [mergeCond]
+  | cons x l => simp [mergeCond, texts]
+
+theorem mergeCond_length {actPrev later : List Setting} {mine : Point} {add : List Setting}
+    (h : mergeCond actPrev later mine add = true) : (mine.rem.take add.length).length = add.length := by
+  simp only [mergeCond, Bool.and_eq_true] at h
+  have h2 := h.1.1.2
+  have := congrArg List.length (eq_of_beq h2)
+  simpa [texts] using this
+
+theorem seam_step (n : Nat) (actPrev later : List Setting) (f0 : Fmts) (p0 : Point)
+    (hs : SortedKeys f0) (hub : Fmts.UB (1 + n) f0) (hrem : p0.rem = [])
+    (hadd : (Fmts.toFun f0 n).add = []) :
+    ∃ st1, iaddStep n actPrev later { f := f0, find := [], repl := [] } (0, p0) = st1 ∧
+      SortedKeys st1.f ∧ Fmts.UB (1 + n) st1.f ∧ st1.find.length = st1.repl.length ∧
+      (∀ j, j ≠ n → Fmts.toFun st1.f j = Fmts.toFun f0 j) ∧
+      (∀ kp ∈ st1.f, kp ∈ f0 ∨ kp.1 = n) ∧
+      ((mergeCond actPrev later (Fmts.toFun f0 n) p0.add = true ∧
+          Fmts.toFun st1.f n = { add := [], rem := (Fmts.toFun f0 n).rem.drop p0.add.length } ∧
+          st1.find = p0.add ∧ st1.repl = (Fmts.toFun f0 n).rem.take p0.add.length) ∨
+       (mergeCond actPrev later (Fmts.toFun f0 n) p0.add = false ∧
+          Fmts.toFun st1.f n = { add := p0.add, rem := (Fmts.toFun f0 n).rem } ∧
+          st1.find = [] ∧ st1.repl = [])) := by
+  obtain ⟨add0, rem0⟩ := p0
+  simp only at hrem
+  subst hrem
+  cases hget : f0.get? (0 + n) with
+  | none =>
+    have hget' : f0.get? n = none := by simpa using hget
+    have hA : Fmts.toFun f0 n = {} := Fmts.toFun_of_get?_none hget'
+    refine ⟨_, iaddStep_none n actPrev later _ 0 _ hget rfl (by simp), ?_, ?_, rfl, ?_, ?_, ?_⟩
+    · exact Fmts.sorted_set hs _ _
+    · exact Fmts.UB_set hub (by omega) _
+    · intro j hj
+      simp only [Nat.zero_add]
+      rw [Fmts.toFun_set hs]; simp [hj]
+    · intro kp hkp
+      rcases Fmts.mem_set hkp with e | e
+      · right; rw [e]; simp
+      · left; exact e
+    · right
+      refine ⟨by rw [hA]; exact mergeCond_empty _ _ _, ?_, rfl, rfl⟩
+      simp only [Nat.zero_add]
+      rw [Fmts.toFun_set hs, hA]; simp
+  | some mine =>
+    have hget' : f0.get? n = some mine := by simpa using hget
+    have hA : Fmts.toFun f0 n = mine := Fmts.toFun_of_get?_some hget'
+    rw [hA] at hadd ⊢
+    refine ⟨_, iaddStep_some n actPrev later _ _ mine hget, ?_⟩
+    simp only [Nat.zero_add]
+    by_cases hm : mergeCond actPrev later mine add0 = true
+    · rw [if_pos hm]
+      split
+      · rename_i hc
+        refine ⟨Fmts.sorted_erase hs _, Fmts.UB_erase hub _, (mergeCond_length hm).symm, ?_, ?_, ?_⟩
+        · intro j hj; rw [Fmts.toFun_erase hs]; simp [hj]
+        · intro kp hkp; left; exact Fmts.mem_erase hkp
+        · left
+          refine ⟨hm, ?_, rfl, rfl⟩
+          rw [Fmts.toFun_erase hs]
+          simp only [if_true]
+          have h1 := hc.1
+          simp only [Point.nonEmpty, hadd] at h1
+          have : mine.rem.drop add0.length = [] := by simpa using h1
+          rw [this]
+      · refine ⟨Fmts.sorted_set hs _ _, Fmts.UB_set hub (by omega) _, (mergeCond_length hm).symm, ?_, ?_, ?_⟩
+        · intro j hj; rw [Fmts.toFun_set hs]; simp [hj]
+        · intro kp hkp
+          rcases Fmts.mem_set hkp with e | e
+          · right; rw [e]
+          · left; exact e
+        · left
+          refine ⟨hm, ?_, rfl, rfl⟩
+          rw [Fmts.toFun_set hs]
+          simp [hadd]
+    · have hm' : mergeCond actPrev later mine add0 = false := by simpa using hm
+      rw [if_neg hm]
+      refine ⟨Fmts.sorted_set hs _ _, Fmts.UB_set hub (by omega) _, rfl, ?_, ?_, ?_⟩
+      · intro j hj; rw [Fmts.toFun_set hs]; simp [hj]
+      · intro kp hkp
+        rcases Fmts.mem_set hkp with e | e
+        · right; rw [e]
+        · left; exact e
+      · right
+        refine ⟨hm', ?_, rfl, rfl⟩
+        rw [Fmts.toFun_set hs]
+        simp [hadd]
+
+/-! ## characterisation of `AStr.iadd` -/
+
+/-- `self.ansi_settings_at(shift - 1)` -/
+def seamPrev (a : AStr) : List Setting := if a.len = 0 then [] else active a.fmts (a.len - 1)
+
+/-- start markers of `b` at keys other than 0 -/
+def laterAdds (b : AStr) : List Setting :=
+  (b.fmts.filter (fun kp => kp.1 != 0)).flatMap (fun kp => kp.2.add)
+
+theorem iadd_fmts (a b : AStr) :
+    (a.iadd b).fmts =
+      (b.fmts.foldl (iaddStep a.len (seamPrev a) (laterAdds b)) { f := a.fmts, find := [], repl := [] }).f := by
+  have : ({ a with s := a.s ++ b.s } : AStr).ansiSettingsAt ((a.len : Int) - 1) = seamPrev a := by
+    unfold AStr.ansiSettingsAt seamPrev
+    by_cases h : a.len = 0
+    · simp [h]
+    · have h1 : (0 : Int) ≤ (a.len : Int) - 1 := by omega
+      have h2 : (a.len : Int) - 1 < (({ a with s := a.s ++ b.s } : AStr).len : Int) := by
+        simp only [AStr.len, List.length_append]; omega
+      have h3 : ((a.len : Int) - 1).toNat = a.len - 1 := by omega
+      rw [if_pos ⟨h1, h2⟩, if_neg h, h3]
+  unfold AStr.iadd
+  simp only [this, laterAdds]
+
+theorem iadd_char (a b : AStr) (hsa : SortedKeys a.fmts) (hba : ∀ kp ∈ a.fmts, kp.1 ≤ a.len)
+    (hAn : (Fmts.toFun a.fmts a.len).add = []) (hsb : SortedKeys b.fmts)
+    (hremb : ∀ kp ∈ b.fmts, (kp.2.rem.map (·.id)).Nodup) (hB0 : (Fmts.toFun b.fmts 0).rem = []) :
+    ∃ P0 : Pend,
+      SortedKeys (a.iadd b).fmts ∧
+      (∀ j, j < a.len → Fmts.toFun (a.iadd b).fmts j = Fmts.toFun a.fmts j) ∧
+      (∀ k, 1 ≤ k → Fmts.toFun (a.iadd b).fmts (k + a.len) =
+        { add := (Fmts.toFun b.fmts k).add,
+          rem := (Fmts.toFun b.fmts k).rem.map (subst (pendAt (Fmts.toFun b.fmts) P0 k)) }) ∧
+      (∀ kp ∈ (a.iadd b).fmts, kp ∈ a.fmts ∨ ∃ kp' ∈ b.fmts, kp.1 = kp'.1 + a.len) ∧
+      ((mergeCond (seamPrev a) (laterAdds b) (Fmts.toFun a.fmts a.len) (Fmts.toFun b.fmts 0).add = true ∧
+          Fmts.toFun (a.iadd b).fmts a.len =
+            { add := [], rem := (Fmts.toFun a.fmts a.len).rem.drop (Fmts.toFun b.fmts 0).add.length } ∧
+          P0 = (Fmts.toFun b.fmts 0).add.zip
+            ((Fmts.toFun a.fmts a.len).rem.take (Fmts.toFun b.fmts 0).add.length)) ∨
+       (mergeCond (seamPrev a) (laterAdds b) (Fmts.toFun a.fmts a.len) (Fmts.toFun b.fmts 0).add = false ∧
+          Fmts.toFun (a.iadd b).fmts a.len =
+            { add := (Fmts.toFun b.fmts 0).add, rem := (Fmts.toFun a.fmts a.len).rem } ∧
+          P0 = [])) := by
+  rw [iadd_fmts]
+  have hub : Fmts.UB (1 + a.len) a.fmts := fun kp h => by have := hba kp h; omega
+  by_cases hlb : Fmts.LB 1 b.fmts
+  · -- no point of `b` at key 0
+    obtain ⟨r1, r2, r3, r4⟩ := iadd_fold_tail a.len (seamPrev a) (laterAdds b) b.fmts 1
+      { f := a.fmts, find := [], repl := [] } hsb hlb hremb hsa hub rfl
+    have hB : Fmts.toFun b.fmts 0 = {} := Fmts.toFun_of_LB hlb (by omega)
+    refine ⟨[], r1, fun j hj => r2 j (by omega), r3, r4, Or.inr ⟨?_, ?_, rfl⟩⟩
+    · rw [hB]; simp [mergeCond]
+    · rw [r2 a.len (by omega), hB]
+      show Fmts.toFun a.fmts a.len = { add := [], rem := (Fmts.toFun a.fmts a.len).rem }
+      rw [← hAn]
+  cases hb : b.fmts with
+  | nil =>
+    exfalso; apply hlb; rw [hb]; intro _ h; cases h
+  | cons kp rest =>
+    obtain ⟨k0, p0⟩ := kp
+    rw [hb] at hsb hremb hB0 hlb
+    by_cases hk0 : 1 ≤ k0
+    · exfalso; apply hlb
+      intro x hx
+      rcases List.mem_cons.mp hx with e | e
+      · rw [e]; exact hk0
+      · have := Fmts.sorted_head_lt hsb x e; simp at this; omega
+    · have hk0' : k0 = 0 := by omega
+      subst hk0'
+      have hB : Fmts.toFun ((0, p0) :: rest) 0 = p0 := by rw [Fmts.toFun_cons]; simp
+      rw [hB] at hB0 ⊢
+      obtain ⟨st1, hst, s1, s2, s3, s4, s5, s6⟩ :=
+        seam_step a.len (seamPrev a) (laterAdds b) a.fmts p0 hsa hub hB0 hAn
+      simp only [List.foldl_cons]
+      rw [hst]
+      have hlb' : Fmts.LB 1 rest := Fmts.LB_tail_of_sorted hsb
+      obtain ⟨r1, r2, r3, r4⟩ := iadd_fold_tail a.len (seamPrev a) (laterAdds b) rest 1 st1
+        (Fmts.sorted_tail hsb) hlb' (fun kp h => hremb kp (by simp [h])) s1 s2 s3
+      refine ⟨st1.find.zip st1.repl, r1, ?_, ?_, ?_, ?_⟩
+      · intro j hj
+        rw [r2 j (by omega), s4 j (by omega)]
+      · intro k hk
+        rw [r3 k hk, Fmts.toFun_cons]
+        have h1 : ¬ 0 = k := by omega
+        have h2 : ¬ k < 0 := by omega
+        simp only [h1, h2, if_false]
+        have e : k = 1 + (k - 1) := by omega
+        have : pendAt (Fmts.toFun rest) (st1.find.zip st1.repl) k =
+            pendAt (Fmts.toFun ((0, p0) :: rest)) (st1.find.zip st1.repl) k := by
+          rw [e]
+          apply pendAt_tail
+          · intro j hj
+            rw [Fmts.toFun_cons]
+            have h1 : ¬ 0 = j := by omega
+            have h2 : ¬ j < 0 := by omega
+            simp [h1, h2]
+          · show pendFilter _ (Fmts.toFun rest 0).rem = pendFilter _ (Fmts.toFun ((0, p0) :: rest) 0).rem
+            rw [hB, hB0, Fmts.toFun_of_LB hlb' (by omega : 0 < 1)]
+            rfl
+        rw [this]
+      · intro kp hkp
+        rcases r4 kp hkp with h | ⟨kp', h1, h2⟩
+        · rcases s5 kp h with h' | h'
+          · left; exact h'
+          · right; exact ⟨(0, p0), by simp, by simp [h']⟩
+        · right; exact ⟨kp', by simp [h1], h2⟩
+      · rw [r2 a.len (by omega)]
+        rcases s6 with ⟨m1, m2, m3, m4⟩ | ⟨m1, m2, m3, m4⟩
+        · left; exact ⟨m1, m2, by rw [m3, m4]⟩
+        · right; exact ⟨m1, m2, by rw [m3, m4]; rfl⟩
+
+/-! ## erasing under an identity-compatible relabelling -/
+
+abbrev ids (l : List Setting) : List Nat := l.map (·.id)
+
+theorem hasId_iff {l : List Setting} {i : Nat} : hasId l i = true ↔ ∃ x ∈ l, x.id = i := by
+  simp [hasId]
+
+theorem hasId_false_iff {l : List Setting} {i : Nat} : hasId l i = false ↔ ∀ x ∈ l, x.id ≠ i := by
+  simp [hasId]
+
+theorem subst_id_congr (Q : Pend) {y r : Setting} (h : y.id = r.id) : (subst Q y).id = (subst Q r).id := by
+  unfold subst
+  rw [h]
+  cases List.find? (fun p => p.1.id == r.id) Q with
+  | none => exact h
+  | some p => rfl
+
+theorem subst_of_not_mem (Q : Pend) (t : Setting) (h : ∀ p ∈ Q, p.1.id ≠ t.id) : subst Q t = t := by
+  unfold subst
+  have : List.find? (fun p => p.1.id == t.id) Q = none := by
+    rw [List.find?_eq_none]
+    intro p hp; simpa using h p hp
+  rw [this]
+
+theorem subst_cases (Q : Pend) (y : Setting) :
+    subst Q y = y ∨ ∃ p ∈ Q, p.1.id = y.id ∧ subst Q y = p.2 := by
+  unfold subst
+  cases h : List.find? (fun p => p.1.id == y.id) Q with
+  | none => left; rfl
+  | some p =>
+    right
+    refine ⟨p, List.mem_of_find?_eq_some h, ?_, rfl⟩
+    simpa using List.find?_some h
+
+theorem subst_pendFilter (Q : Pend) (rem : List Setting) (y : Setting) (h : hasId rem y.id = false) :
+    subst (pendFilter Q rem) y = subst Q y := by
+  induction Q with
+  | nil => rfl
+  | cons fr Q ih =>
+    obtain ⟨f, r⟩ := fr
+    unfold pendFilter at ih ⊢
+    rw [List.filter_cons]
+    by_cases hk : hasId rem f.id = true
+    · have hne : y.id ≠ f.id := by
+        intro e; rw [e] at h; rw [h] at hk; cases hk
+      simp only [hk, Bool.not_true, Bool.false_eq_true, if_false]
+      rw [subst_cons_ne f r Q y hne, ih]
+    · have hk' : hasId rem f.id = false := by simpa using hk
+      simp only [hk', Bool.not_false, if_true]
+      by_cases he : y.id = f.id
+      · rw [subst_cons_eq _ _ _ _ he, subst_cons_eq _ _ _ _ he]
+      · rw [subst_cons_ne _ _ _ _ he, subst_cons_ne _ _ _ _ he, ih]
+
+theorem mem_pendFilter {Q : Pend} {rem : List Setting} {p : Setting × Setting} :
+    p ∈ pendFilter Q rem ↔ p ∈ Q ∧ hasId rem p.1.id = false := by
+  simp [pendFilter, List.mem_filter]
+
+theorem eraseId_cons (y : Setting) (Y : List Setting) (i : Nat) :
+    eraseId (y :: Y) i = if y.id = i then Y else y :: eraseId Y i := by
+  unfold eraseId
+  rw [List.eraseP_cons]
+  by_cases h : y.id = i
+  · simp [h]
+  · have : (y.id == i) = false := by simpa using h
+    simp [h, this]
+
+theorem eraseId_sublist (Y : List Setting) (i : Nat) : (eraseId Y i).Sublist Y := List.eraseP_sublist
+
+theorem mem_eraseId_ne {Y : List Setting} (hn : (ids Y).Nodup) {i : Nat} {y : Setting}
+    (hy : y ∈ eraseId Y i) : y.id ≠ i := by
+  induction Y with
+  | nil => simp [eraseId] at hy
+  | cons y0 Y ih =>
+    have hn' := List.nodup_cons.mp hn
+    rw [eraseId_cons] at hy
+    by_cases h0 : y0.id = i
+    · simp only [h0, if_true] at hy
+      intro e
+      exact hn'.1 (List.mem_map.mpr ⟨y, hy, by show y.id = y0.id; rw [e, h0]⟩)
+    · simp only [h0, if_false] at hy
+      rcases List.mem_cons.mp hy with e | e
+      · rw [e]; exact h0
+      · exact ih hn'.2 e
+
+theorem mem_eraseId_of_ne {Y : List Setting} {i : Nat} {y : Setting} (hy : y ∈ Y) (hne : y.id ≠ i) :
+    y ∈ eraseId Y i := by
+  induction Y with
+  | nil => cases hy
+  | cons y0 Y ih =>
+    rw [eraseId_cons]
+    by_cases h0 : y0.id = i
+    · simp only [h0, if_true]
+      rcases List.mem_cons.mp hy with e | e
+      · subst e; exact absurd h0 hne
+      · exact e
+    · simp only [h0, if_false]
+      rcases List.mem_cons.mp hy with e | e
+      · simp [e]
+      · exact List.mem_cons_of_mem _ (ih e)
+
+/-- erasing commutes with an identity-compatible relabelling when the relabelled ids are distinct -/
+theorem eraseId_map (σ : Setting → Setting) (r : Setting) (Y : List Setting)
+    (hσ : ∀ y, y.id = r.id → (σ y).id = (σ r).id)
+    (hn : (ids (Y.map σ)).Nodup) (hh : hasId Y r.id = true) :
+    eraseId (Y.map σ) (σ r).id = (eraseId Y r.id).map σ := by
+  induction Y with
+  | nil => simp [hasId] at hh
+  | cons y0 Y ih =>
+    have hn' : (σ y0).id ∉ ids (Y.map σ) ∧ (ids (Y.map σ)).Nodup := by
+      simpa [ids] using hn
+    rw [List.map_cons, eraseId_cons, eraseId_cons]
+    by_cases h0 : y0.id = r.id
+    · simp [h0, hσ y0 h0]
+    · have hh' : hasId Y r.id = true := by
+        rcases hasId_iff.mp hh with ⟨x, hx, hxi⟩
+        rcases List.mem_cons.mp hx with e | e
+        · subst e; exact absurd hxi h0
+        · exact hasId_iff.mpr ⟨x, e, hxi⟩
+      have h1 : ¬ (σ y0).id = (σ r).id := by
+        intro e
+        rcases hasId_iff.mp hh' with ⟨x, hx, hxi⟩
+        apply hn'.1
+        refine List.mem_map.mpr ⟨σ x, List.mem_map.mpr ⟨x, hx, rfl⟩, ?_⟩
+        rw [e, hσ x hxi]
+      simp only [h0, h1, if_false, List.map_cons]
+      rw [ih hn'.2 hh']
+
+theorem stepOk_cons (cur : List Setting) (s : Setting) (rest : List Setting) :
+    stepOk cur (s :: rest) = (hasId cur s.id && stepOk (eraseId cur s.id) rest) := rfl
+
+/-- the stop markers of one point: erase loop under relabelling -/
+theorem foldl_eraseId_map (σ : Setting → Setting) (hσ : ∀ y r : Setting, y.id = r.id → (σ y).id = (σ r).id)
+    (rem : List Setting) : ∀ (Y : List Setting), (ids (Y.map σ)).Nodup → stepOk Y rem = true →
+      (rem.map σ).foldl (fun c s => eraseId c s.id) (Y.map σ) =
+        (rem.foldl (fun c s => eraseId c s.id) Y).map σ ∧
+      stepOk (Y.map σ) (rem.map σ) = true := by
+  induction rem with
+  | nil => intro Y _ _; exact ⟨rfl, rfl⟩
+  | cons r rem ih =>
+    intro Y hn hok
+    rw [stepOk_cons, Bool.and_eq_true] at hok
+    have e := eraseId_map σ r Y (fun y h => hσ y r h) hn hok.1
+    have hn' : (ids ((eraseId Y r.id).map σ)).Nodup :=
+      List.Nodup.sublist (((eraseId_sublist Y r.id).map σ).map _) hn
+    obtain ⟨i1, i2⟩ := ih (eraseId Y r.id) hn' hok.2
+    refine ⟨?_, ?_⟩
+    · simp only [List.map_cons, List.foldl_cons]
+      rw [e, i1]
+    · rw [List.map_cons, stepOk_cons, Bool.and_eq_true, e]
+      refine ⟨?_, i2⟩
+      rcases hasId_iff.mp hok.1 with ⟨x, hx, hxi⟩
+      exact hasId_iff.mpr ⟨σ x, List.mem_map.mpr ⟨x, hx, rfl⟩, hσ x r hxi⟩
+
+theorem foldl_eraseId_sublist (rem : List Setting) (Y : List Setting) :
+    (rem.foldl (fun c s => eraseId c s.id) Y).Sublist Y := by
+  induction rem generalizing Y with
+  | nil => exact List.Sublist.refl _
+  | cons r rem ih => exact (ih _).trans (eraseId_sublist Y r.id)
+
+theorem mem_foldl_eraseId {rem Y : List Setting} (hn : (ids Y).Nodup) {y : Setting}
+    (hy : y ∈ rem.foldl (fun c s => eraseId c s.id) Y) : y ∈ Y ∧ hasId rem y.id = false := by
+  induction rem generalizing Y with
+  | nil => exact ⟨hy, rfl⟩
+  | cons r rem ih =>
+    simp only [List.foldl_cons] at hy
+    have hn' : (ids (eraseId Y r.id)).Nodup := List.Nodup.sublist ((eraseId_sublist Y r.id).map _) hn
+    obtain ⟨h1, h2⟩ := ih hn' hy
+    refine ⟨(eraseId_sublist Y r.id).subset h1, ?_⟩
+    have := mem_eraseId_ne hn h1
+    rw [hasId_false_iff] at h2 ⊢
+    intro x hx
+    rcases List.mem_cons.mp hx with e | e
+    · rw [e]; exact fun e' => this e'.symm
+    · exact h2 x e
+
+theorem mem_foldl_eraseId_of {rem Y : List Setting} {y : Setting} (hy : y ∈ Y)
+    (hne : hasId rem y.id = false) : y ∈ rem.foldl (fun c s => eraseId c s.id) Y := by
+  induction rem generalizing Y with
+  | nil => exact hy
+  | cons r rem ih =>
+    simp only [List.foldl_cons]
+    rw [hasId_false_iff] at hne
+    apply ih
+    · exact mem_eraseId_of_ne hy (fun e => hne r (by simp) e.symm)
+    · rw [hasId_false_iff]; exact fun x hx => hne x (by simp [hx])
+
+theorem stepPoint_def (cur : List Setting) (p : Point) :
+    stepPoint cur p = (p.rem.foldl (fun c s => eraseId c s.id) cur) ++ p.add := rfl
+
+/-- one change point of `b` against the re-targeted change point of `a.iadd b` -/
+theorem step_rel (Q : Pend) (Y add rem : List Setting)
+    (hYn : (ids Y).Nodup)
+    (hY' : (ids (stepPoint Y ⟨add, rem⟩)).Nodup)
+    (hok : stepOk Y rem = true)
+    (hXn : (ids (Y.map (subst Q))).Nodup)
+    (hact : ∀ p ∈ Q, hasId Y p.1.id = true)
+    (hadd : ∀ p ∈ Q, ∀ t ∈ add, p.2.id ≠ t.id) :
+    stepPoint (Y.map (subst Q)) ⟨add, rem.map (subst Q)⟩ =
+        (stepPoint Y ⟨add, rem⟩).map (subst (pendFilter Q rem)) ∧
+      (ids ((stepPoint Y ⟨add, rem⟩).map (subst (pendFilter Q rem)))).Nodup ∧
+      (∀ p ∈ pendFilter Q rem, hasId (stepPoint Y ⟨add, rem⟩) p.1.id = true) ∧
+      stepOk (Y.map (subst Q)) (rem.map (subst Q)) = true := by
+  obtain ⟨e1, e2⟩ := foldl_eraseId_map (subst Q) (fun y r h => subst_id_congr Q h) rem Y hXn hok
+  simp only [stepPoint_def] at hY' ⊢
+  rw [e1]
+  generalize hY2 : rem.foldl (fun c s => eraseId c s.id) Y = Y2 at hY' ⊢
+  have hmem : ∀ y ∈ Y2, y ∈ Y ∧ hasId rem y.id = false := by
+    intro y hy; rw [← hY2] at hy; exact mem_foldl_eraseId hYn hy
+  have hY'' : (ids Y2).Nodup ∧ (ids add).Nodup ∧ ∀ a ∈ ids Y2, ∀ b ∈ ids add, a ≠ b := by
+    have := hY'
+    simp only [ids, List.map_append] at this
+    exact List.nodup_append.mp this
+  -- pending pairs stay active
+  have hact' : ∀ p ∈ pendFilter Q rem, ∃ x ∈ Y2, x.id = p.1.id := by
+    intro p hp
+    obtain ⟨hpQ, hpr⟩ := mem_pendFilter.mp hp
+    obtain ⟨x, hx, hxi⟩ := hasId_iff.mp (hact p hpQ)
+    refine ⟨x, ?_, hxi⟩
+    rw [← hY2]
+    exact mem_foldl_eraseId_of hx (by rw [hxi]; exact hpr)
+  have hm1 : Y2.map (subst Q) = Y2.map (subst (pendFilter Q rem)) :=
+    List.map_congr_left (fun y hy => (subst_pendFilter Q rem y (hmem y hy).2).symm)
+  have hm2 : add.map (subst (pendFilter Q rem)) = add := by
+    have : ∀ t ∈ add, subst (pendFilter Q rem) t = t := by
+      intro t ht
+      apply subst_of_not_mem
+      intro p hp e
+      obtain ⟨x, hx, hxi⟩ := hact' p hp
+      exact hY''.2.2 x.id (List.mem_map.mpr ⟨x, hx, rfl⟩) t.id (List.mem_map.mpr ⟨t, ht, rfl⟩)
+        (by rw [hxi, e])
+    rw [List.map_congr_left this]; simp
+  have hfinal : (Y2 ++ add).map (subst (pendFilter Q rem)) = Y2.map (subst Q) ++ add := by
+    rw [List.map_append, hm2, hm1]
+  refine ⟨hfinal.symm, ?_, ?_, e2⟩
+  · rw [hfinal]
+    simp only [ids, List.map_append]
+    refine List.nodup_append.mpr ⟨?_, hY''.2.1, ?_⟩
+    · have hsub : Y2.Sublist Y := by rw [← hY2]; exact foldl_eraseId_sublist rem Y
+      exact List.Nodup.sublist ((hsub.map _).map _) hXn
+    · intro i hi j hj e
+      obtain ⟨x, hx, rfl⟩ := List.mem_map.mp hi
+      obtain ⟨t, ht, rfl⟩ := List.mem_map.mp hj
+      obtain ⟨y, hy, rfl⟩ := List.mem_map.mp hx
+      rcases subst_cases Q y with h | ⟨p, hp, _, h⟩
+      · rw [h] at e
+        exact hY''.2.2 y.id (List.mem_map.mpr ⟨y, hy, rfl⟩) t.id (List.mem_map.mpr ⟨t, ht, rfl⟩) e
+      · rw [h] at e
+        exact hadd p hp t ht e
+  · intro p hp
+    obtain ⟨x, hx, hxi⟩ := hact' p hp
+    exact hasId_iff.mpr ⟨x, List.mem_append_left _ hx, hxi⟩
+
+/-! ## `replayOk` in the function representation -/
+
+theorem stepOk_nil (cur : List Setting) : stepOk cur [] = true := by
+  cases cur <;> rfl
+
+/-- `replayOk` in the function representation -/
+def okFrom (g : Nat → Point) (cur : List Setting) (lo : Nat) : Nat → Bool
+  | 0 => true
+  | m + 1 => stepOk cur (g lo).rem && okFrom g (stepPoint cur (g lo)) (lo + 1) m
+
+theorem okFrom_congr {g g' : Nat → Point} {lo : Nat} (m : Nat) (cur : List Setting)
+    (h : ∀ k, lo ≤ k → k < lo + m → g k = g' k) : okFrom g cur lo m = okFrom g' cur lo m := by
+  induction m generalizing cur lo with
+  | zero => rfl
+  | succ m ih =>
+    simp only [okFrom]
+    rw [h lo (Nat.le_refl _) (by omega)]
+    rw [ih _ (fun k h1 h2 => h k (by omega) (by omega))]
+
+theorem okFrom_add (g : Nat → Point) (cur : List Setting) (lo m1 m2 : Nat) :
+    okFrom g cur lo (m1 + m2) = (okFrom g cur lo m1 && okFrom g (runFrom g cur lo m1) (lo + m1) m2) := by
+  induction m1 generalizing cur lo with
+  | zero => simp [okFrom, runFrom]
+  | succ m1 ih =>
+    have : m1 + 1 + m2 = (m1 + m2) + 1 := by omega
+    rw [this]
+    simp only [okFrom, runFrom]
+    rw [ih, Bool.and_assoc]
+    congr 3
+    omega
+
+theorem okFrom_skip (g : Nat → Point) (cur : List Setting) (lo m : Nat)
+    (h : ∀ k, lo ≤ k → k < lo + m → g k = {}) : okFrom g cur lo m = true ∧ runFrom g cur lo m = cur := by
+  induction m generalizing lo with
+  | zero => exact ⟨rfl, rfl⟩
+  | succ m ih =>
+    simp only [okFrom, runFrom]
+    rw [h lo (Nat.le_refl _) (by omega), stepPoint_empty]
+    have := ih (lo + 1) (fun k h1 h2 => h k (by omega) (by omega))
+    simp [this, stepOk_nil]
+
+theorem replayOkFrom_eq_okFrom (f : Fmts) (hs : SortedKeys f) (lo : Nat) (hlb : Fmts.LB lo f)
+    (cur : List Setting) (m : Nat) (hub : Fmts.UB (lo + m) f) :
+    replayOkFrom cur f = okFrom (Fmts.toFun f) cur lo m := by
+  induction f generalizing cur lo m with
+  | nil =>
+    have := okFrom_skip (Fmts.toFun []) cur lo m (fun _ _ _ => rfl)
+    simp [replayOkFrom, this.1]
+  | cons kp rest ih =>
+    obtain ⟨k, p⟩ := kp
+    have hk : lo ≤ k := hlb (k, p) (by simp)
+    have hk2 : k < lo + m := hub (k, p) (by simp)
+    have hrest : SortedKeys rest := Fmts.sorted_tail hs
+    have hlb' : Fmts.LB (k + 1) rest := Fmts.LB_tail_of_sorted hs
+    have e1 : m = (k - lo) + (1 + (m - (k - lo) - 1)) := by omega
+    have hskip := okFrom_skip (Fmts.toFun ((k, p) :: rest)) cur lo (k - lo) (by
+      intro j h1 h2
+      rw [Fmts.toFun_cons]
+      have h3 : ¬ k = j := by omega
+      have h4 : j < k := by omega
+      simp [h3, h4])
+    rw [e1, okFrom_add, hskip.1, hskip.2, Bool.true_and, okFrom_add]
+    have e2 : lo + (k - lo) = k := by omega
+    rw [e2]
+    simp only [okFrom, runFrom, Bool.and_true]
+    have hhead : Fmts.toFun ((k, p) :: rest) k = p := by rw [Fmts.toFun_cons]; simp
+    rw [hhead]
+    simp only [replayOkFrom]
+    congr 1
+    rw [ih hrest (k + 1) hlb' (stepPoint cur p) (m - (k - lo) - 1)
+      (fun x hx => by have := hub x (List.mem_cons_of_mem _ hx); omega)]
+    apply okFrom_congr
+    intro j hj1 hj2
+    rw [Fmts.toFun_cons]
+    have h1 : ¬ k = j := by omega
+    have h2 : ¬ j < k := by omega
+    simp [h1, h2]
+
+theorem okFrom_iff (g : Nat → Point) (cur : List Setting) (lo m : Nat) :
+    okFrom g cur lo m = true ↔ ∀ j, j < m → stepOk (runFrom g cur lo j) (g (lo + j)).rem = true := by
+  induction m generalizing cur lo with
+  | zero => simp [okFrom]
+  | succ m ih =>
+    simp only [okFrom, Bool.and_eq_true, ih]
+    constructor
+    · rintro ⟨h0, h1⟩ j hj
+      cases j with
+      | zero => simpa [runFrom] using h0
+      | succ j =>
+        have := h1 j (by omega)
+        simp only [runFrom]
+        have e : lo + (j + 1) = lo + 1 + j := by omega
+        rw [e]; exact this
+    · intro h
+      refine ⟨by simpa [runFrom] using h 0 (by omega), ?_⟩
+      intro j hj
+      have := h (j + 1) (by omega)
+      simp only [runFrom] at this
+      have e : lo + (j + 1) = lo + 1 + j := by omega
+      rw [e] at this; exact this
+
+/-- the settings active just before key `k` -/
+def prevAct (g : Nat → Point) (k : Nat) : List Setting := runFrom g [] 0 k
+
+theorem prevAct_zero (g : Nat → Point) : prevAct g 0 = [] := rfl
+
+theorem prevAct_succ (g : Nat → Point) (k : Nat) : prevAct g (k + 1) = stepPoint (prevAct g k) (g k) := by
+  unfold prevAct
+  rw [runFrom_add g [] 0 k 1]
+  simp [runFrom]
+
+theorem prevAct_succ_eq_activeFn (g : Nat → Point) (k : Nat) : prevAct g (k + 1) = activeFn g k := rfl
+
+theorem replayOk_iff (f : Fmts) (hs : SortedKeys f) (m : Nat) (hub : Fmts.UB m f) :
+    replayOk f = true ↔ ∀ j, j < m → stepOk (prevAct (Fmts.toFun f) j) (Fmts.toFun f j).rem = true := by
+  unfold replayOk
+  rw [replayOkFrom_eq_okFrom f hs 0 (fun _ _ => Nat.zero_le _) [] m (by simpa using hub), okFrom_iff]
+  simp [prevAct]
+
+/-! ## settings membership, `stepOk` facts, pointwise consequences of `WF` -/
+
+theorem mem_settings_of_toFun {f : Fmts} {k : Nat} {s : Setting}
+    (h : s ∈ (Fmts.toFun f k).add ∨ s ∈ (Fmts.toFun f k).rem) : s ∈ f.settings := by
+  cases hg : f.get? k with
+  | none =>
+    rw [Fmts.toFun_of_get?_none hg] at h
+    simp at h
+  | some p =>
+    rw [Fmts.toFun_of_get?_some hg] at h
+    unfold Fmts.settings
+    rw [List.mem_flatMap]
+    exact ⟨(k, p), Fmts.mem_of_get?_eq_some hg, by simpa using h⟩
+
+theorem toFun_of_mem_settings {f : Fmts} (hs : SortedKeys f) {s : Setting} (h : s ∈ f.settings) :
+    ∃ k, (k, Fmts.toFun f k) ∈ f ∧ (s ∈ (Fmts.toFun f k).add ∨ s ∈ (Fmts.toFun f k).rem) := by
+  unfold Fmts.settings at h
+  rw [List.mem_flatMap] at h
+  obtain ⟨⟨k, p⟩, hm, hs'⟩ := h
+  have := Fmts.toFun_of_get?_some (Fmts.get?_eq_some_of_mem hs hm)
+  refine ⟨k, by rw [this]; exact hm, ?_⟩
+  rw [this]; simpa using hs'
+
+theorem toFun_mem_of_ne {f : Fmts} {k : Nat} (h : Fmts.toFun f k ≠ {}) : (k, Fmts.toFun f k) ∈ f := by
+  cases hg : f.get? k with
+  | none => exact absurd (Fmts.toFun_of_get?_none hg) h
+  | some p =>
+    rw [Fmts.toFun_of_get?_some hg]
+    exact Fmts.mem_of_get?_eq_some hg
+
+theorem mem_stepPoint {cur : List Setting} {p : Point} {y : Setting} (h : y ∈ stepPoint cur p) :
+    y ∈ cur ∨ y ∈ p.add := by
+  rw [stepPoint_def] at h
+  rcases List.mem_append.mp h with h | h
+  · left; exact (foldl_eraseId_sublist _ _).subset h
+  · right; exact h
+
+theorem mem_prevAct {g : Nat → Point} {k : Nat} {y : Setting} (h : y ∈ prevAct g k) :
+    ∃ j, j < k ∧ y ∈ (g j).add := by
+  induction k with
+  | zero => simp [prevAct_zero] at h
+  | succ k ih =>
+    rw [prevAct_succ] at h
+    rcases mem_stepPoint h with h | h
+    · obtain ⟨j, hj, hy⟩ := ih h
+      exact ⟨j, by omega, hy⟩
+    · exact ⟨k, by omega, h⟩
+
+theorem mem_laterAdds {b : AStr} {k : Nat} {t : Setting} (hk : k ≠ 0)
+    (ht : t ∈ (Fmts.toFun b.fmts k).add) : t ∈ laterAdds b := by
+  have hne : Fmts.toFun b.fmts k ≠ {} := by
+    intro e; rw [e] at ht; simp at ht
+  unfold laterAdds
+  rw [List.mem_flatMap]
+  refine ⟨(k, Fmts.toFun b.fmts k), ?_, ht⟩
+  rw [List.mem_filter]
+  exact ⟨toFun_mem_of_ne hne, by simpa using hk⟩
+
+theorem stepOk_mem {cur rem : List Setting} (h : stepOk cur rem = true) {r : Setting} (hr : r ∈ rem) :
+    hasId cur r.id = true := by
+  induction rem generalizing cur with
+  | nil => cases hr
+  | cons r0 rest ih =>
+    rw [stepOk_cons, Bool.and_eq_true] at h
+    rcases List.mem_cons.mp hr with e | e
+    · rw [e]; exact h.1
+    · obtain ⟨x, hx, hxi⟩ := hasId_iff.mp (ih h.2 e)
+      exact hasId_iff.mpr ⟨x, (eraseId_sublist _ _).subset hx, hxi⟩
+
+theorem stepOk_nodup {cur rem : List Setting} (h : stepOk cur rem = true) (hn : (ids cur).Nodup) :
+    (ids rem).Nodup := by
+  induction rem generalizing cur with
+  | nil => simp [ids]
+  | cons r0 rest ih =>
+    rw [stepOk_cons, Bool.and_eq_true] at h
+    have hn' : (ids (eraseId cur r0.id)).Nodup := List.Nodup.sublist ((eraseId_sublist _ _).map _) hn
+    simp only [ids, List.map_cons, List.nodup_cons]
+    refine ⟨?_, ih h.2 hn'⟩
+    intro hm
+    obtain ⟨r', hr', e⟩ := List.mem_map.mp hm
+    obtain ⟨x, hx, hxi⟩ := hasId_iff.mp (stepOk_mem h.2 hr')
+    exact mem_eraseId_ne hn hx (by rw [hxi]; exact e)
+
+theorem stepOk_nil_cur {rem : List Setting} (h : stepOk [] rem = true) : rem = [] := by
+  cases rem with
+  | nil => rfl
+  | cons r rest => simp [stepOk_cons, hasId] at h
+
+/-! ### pointwise consequences of `WF` -/
+
+theorem wf_UB {x : AStr} (h : WF x) : Fmts.UB (x.len + 1) x.fmts :=
+  fun kp hkp => by have := h.bound kp hkp; omega
+
+theorem wf_act {x : AStr} (h : WF x) (i : Nat) : active x.fmts i = prevAct (Fmts.toFun x.fmts) (i + 1) :=
+  active_eq_activeFn x.fmts h.sorted i
+
+theorem wf_ok_at {x : AStr} (h : WF x) (j : Nat) :
+    stepOk (prevAct (Fmts.toFun x.fmts) j) (Fmts.toFun x.fmts j).rem = true := by
+  have := (replayOk_iff x.fmts h.sorted (x.len + 1 + j) (Fmts.UB_mono (wf_UB h) (by omega))).mp h.ok
+  exact this j (by omega)
+
+theorem wf_nodup_prev {x : AStr} (h : WF x) (j : Nat) : (ids (prevAct (Fmts.toFun x.fmts) j)).Nodup := by
+  cases j with
+  | zero => simp [prevAct_zero, ids]
+  | succ j => rw [← wf_act h j]; exact h.nodup j
+
+theorem wf_closed_ge {x : AStr} (h : WF x) (j : Nat) (hj : x.len ≤ j) :
+    prevAct (Fmts.toFun x.fmts) (j + 1) = [] := by
+  induction j with
+  | zero =>
+    have : x.len = 0 := by omega
+    rw [← wf_act h 0, ← this]; exact h.closed
+  | succ j ih =>
+    by_cases hj' : x.len ≤ j
+    · rw [prevAct_succ, ih hj', Fmts.toFun_of_UB (wf_UB h) (by omega)]
+      rfl
+    · have : x.len = j + 1 := by omega
+      rw [← wf_act h (j + 1), ← this]; exact h.closed
+
+theorem wf_rem0 {x : AStr} (h : WF x) : (Fmts.toFun x.fmts 0).rem = [] :=
+  stepOk_nil_cur (by simpa [prevAct_zero] using wf_ok_at h 0)
+
+theorem wf_rem_nodup {x : AStr} (h : WF x) (j : Nat) : (ids (Fmts.toFun x.fmts j).rem).Nodup :=
+  stepOk_nodup (wf_ok_at h j) (wf_nodup_prev h j)
+
+theorem wf_rem_nodup_mem {x : AStr} (h : WF x) : ∀ kp ∈ x.fmts, (kp.2.rem.map (·.id)).Nodup := by
+  intro kp hkp
+  have := Fmts.toFun_of_get?_some (Fmts.get?_eq_some_of_mem h.sorted (show (kp.1, kp.2) ∈ x.fmts from hkp))
+  rw [← this]
+  exact wf_rem_nodup h kp.1
+
+theorem wf_addEnd {x : AStr} (h : WF x) : (Fmts.toFun x.fmts x.len).add = [] := by
+  cases hg : x.fmts.get? x.len with
+  | none => rw [Fmts.toFun_of_get?_none hg]
+  | some p =>
+    rw [Fmts.toFun_of_get?_some hg]
+    exact h.noAddEnd (x.len, p) (Fmts.mem_of_get?_eq_some hg) rfl
+
+theorem wf_mem_prev_settings {x : AStr} {j : Nat} {y : Setting}
+    (hy : y ∈ prevAct (Fmts.toFun x.fmts) j) : y ∈ x.fmts.settings := by
+  obtain ⟨i, _, hi⟩ := mem_prevAct hy
+  exact mem_settings_of_toFun (Or.inl hi)
+
+/-! ## list lemmas for the seam -/
+
+theorem eraseId_eq_filter {Y : List Setting} (hn : (ids Y).Nodup) (i : Nat) :
+    eraseId Y i = Y.filter (fun s => s.id != i) := by
+  induction Y with
+  | nil => rfl
+  | cons y0 Y ih =>
+    have hn' : y0.id ∉ ids Y ∧ (ids Y).Nodup := by simpa [ids] using hn
+    rw [eraseId_cons, List.filter_cons]
+    by_cases h0 : y0.id = i
+    · simp only [h0, if_true, bne_self_eq_false, Bool.false_eq_true, if_false]
+      symm
+      rw [List.filter_eq_self]
+      intro s hs
+      have : s.id ≠ i := by
+        intro e; apply hn'.1; rw [h0, ← e]; exact List.mem_map.mpr ⟨s, hs, rfl⟩
+      simpa using this
+    · have : (y0.id != i) = true := by simpa using h0
+      simp only [h0, if_false, this, if_true]
+      rw [ih hn'.2]
+
+theorem foldl_eraseId_eq_filter (rem : List Setting) {Y : List Setting} (hn : (ids Y).Nodup) :
+    rem.foldl (fun c s => eraseId c s.id) Y = Y.filter (fun s => !hasId rem s.id) := by
+  induction rem generalizing Y with
+  | nil =>
+    simp only [List.foldl_nil, hasId, List.any_nil, Bool.not_false]
+    exact (List.filter_eq_self.mpr (fun _ _ => rfl)).symm
+  | cons r rem ih =>
+    have hn' : (ids (eraseId Y r.id)).Nodup := List.Nodup.sublist ((eraseId_sublist _ _).map _) hn
+    simp only [List.foldl_cons]
+    rw [ih hn', eraseId_eq_filter hn, List.filter_filter]
+    apply List.filter_congr
+    intro s _
+    simp only [hasId, List.any_cons]
+    by_cases h : s.id = r.id
+    · simp [h]
+    · have h1 : (s.id != r.id) = true := by simpa using h
+      have h2 : (r.id == s.id) = false := by simpa using fun e : r.id = s.id => h e.symm
+      simp [h1, h2]
+
+theorem hasId_append (l1 l2 : List Setting) (i : Nat) : hasId (l1 ++ l2) i = (hasId l1 i || hasId l2 i) := by
+  simp [hasId]
+
+/-- at the seam: deleting only the un-merged stop markers leaves the merged objects, in order -/
+theorem seam_filter (S R : List Setting) (k : Nat) (hn : (ids S).Nodup) (hok : stepOk S R = true)
+    (hcl : R.foldl (fun c s => eraseId c s.id) S = []) :
+    (R.drop k).foldl (fun c s => eraseId c s.id) S = S.filter (fun s => hasId (R.take k) s.id) := by
+  rw [foldl_eraseId_eq_filter _ hn]
+  rw [foldl_eraseId_eq_filter _ hn] at hcl
+  have hall : ∀ s ∈ S, hasId R s.id = true := by
+    intro s hs
+    have := List.filter_eq_nil_iff.mp hcl s hs
+    simpa using this
+  have hR : (ids (R.take k ++ R.drop k)).Nodup := by
+    rw [List.take_append_drop]; exact stepOk_nodup hok hn
+  simp only [ids, List.map_append] at hR
+  have hdis := (List.nodup_append.mp hR).2.2
+  apply List.filter_congr
+  intro s hs
+  have h1 := hall s hs
+  rw [← List.take_append_drop k R, hasId_append] at h1
+  cases hH : hasId (R.take k) s.id with
+  | true =>
+    cases hD : hasId (R.drop k) s.id with
+    | false => rfl
+    | true =>
+      obtain ⟨x, hx, hxi⟩ := hasId_iff.mp hH
+      obtain ⟨y, hy, hyi⟩ := hasId_iff.mp hD
+      exact absurd (hxi.trans hyi.symm)
+        (hdis x.id (List.mem_map.mpr ⟨x, hx, rfl⟩) y.id (List.mem_map.mpr ⟨y, hy, rfl⟩))
+  | false =>
+    rw [hH] at h1
+    simp at h1
+    simp [h1]
+
+theorem eq_of_ids_eq : ∀ (l1 l2 : List Setting), ids l1 = ids l2 →
+    (∀ s ∈ l1, ∀ t ∈ l2, s.id = t.id → s.txt = t.txt) → l1 = l2
+  | [], [], _, _ => rfl
+  | [], _ :: _, h, _ => by simp [ids] at h
+  | _ :: _, [], h, _ => by simp [ids] at h
+  | x :: l1, y :: l2, h, hc => by
+    simp only [ids, List.map_cons, List.cons.injEq] at h
+    have hxy : x = y := by
+      have := hc x (by simp) y (by simp) h.1
+      cases x; cases y; simp_all
+    rw [hxy, eq_of_ids_eq l1 l2 h.2 (fun s hs t ht => hc s (by simp [hs]) t (by simp [ht]))]
+
+theorem map_subst_zip : ∀ (l h : List Setting), (ids l).Nodup → l.length = h.length →
+    l.map (subst (l.zip h)) = h
+  | [], [], _, _ => rfl
+  | [], _ :: _, _, hl => by simp at hl
+  | _ :: _, [], _, hl => by simp at hl
+  | x :: l, y :: h, hn, hl => by
+    have hn' : x.id ∉ ids l ∧ (ids l).Nodup := by simpa [ids] using hn
+    rw [List.zip_cons_cons, List.map_cons, subst_cons_eq x y _ x rfl]
+    have : l.map (subst ((x, y) :: l.zip h)) = l.map (subst (l.zip h)) := by
+      apply List.map_congr_left
+      intro z hz
+      apply subst_cons_ne
+      intro e; apply hn'.1; rw [← e]; exact List.mem_map.mpr ⟨z, hz, rfl⟩
+    rw [this, map_subst_zip l h hn'.2 (by simpa using hl)]
+
+theorem zip_txt : ∀ (l h : List Setting), texts h = texts l → ∀ p ∈ l.zip h, p.1.txt = p.2.txt
+  | [], _, _, p, hp => by simp at hp
+  | _ :: _, [], _, p, hp => by simp at hp
+  | x :: l, y :: h, ht, p, hp => by
+    simp only [texts, List.map_cons, List.cons.injEq] at ht
+    rw [List.zip_cons_cons] at hp
+    rcases List.mem_cons.mp hp with e | e
+    · rw [e]; exact ht.1.symm
+    · exact zip_txt l h ht.2 p e
+
+theorem pendAt_subset {g : Nat → Point} {P : Pend} {k : Nat} {p : Setting × Setting}
+    (h : p ∈ pendAt g P k) : p ∈ P := by
+  induction k with
+  | zero => exact h
+  | succ k ih => exact ih (mem_pendFilter.mp h).1
+
+theorem texts_map_subst (Q : Pend) (Y : List Setting)
+    (h : ∀ p ∈ Q, ∀ y ∈ Y, p.1.id = y.id → p.2.txt = y.txt) : texts (Y.map (subst Q)) = texts Y := by
+  unfold texts
+  rw [List.map_map]
+  apply List.map_congr_left
+  intro y hy
+  rcases subst_cases Q y with e | ⟨p, hp, hpi, e⟩
+  · simp [e]
+  · simp only [Function.comp, e]
+    exact h p hp y hy hpi
+
+/-! ## the relation between the replays of `a.iadd b` and `b` -/
+
+theorem stepOk_of_nodup {cur rem : List Setting} (hr : (ids rem).Nodup)
+    (hm : ∀ r ∈ rem, hasId cur r.id = true) : stepOk cur rem = true := by
+  induction rem generalizing cur with
+  | nil => exact stepOk_nil _
+  | cons r rest ih =>
+    have hr' : r.id ∉ ids rest ∧ (ids rest).Nodup := by simpa [ids] using hr
+    rw [stepOk_cons, Bool.and_eq_true]
+    refine ⟨hm r (by simp), ih hr'.2 ?_⟩
+    intro r' hr''
+    obtain ⟨x, hx, hxi⟩ := hasId_iff.mp (hm r' (by simp [hr'']))
+    refine hasId_iff.mpr ⟨x, mem_eraseId_of_ne hx ?_, hxi⟩
+    intro e
+    apply hr'.1
+    rw [← e, hxi]
+    exact List.mem_map.mpr ⟨r', hr'', rfl⟩
+
+/-- relation between the replay of `a.iadd b` just before key `a.len + m` and that of `b` before `m` -/
+structure RInv (B : Nat → Point) (P0 : Pend) (X : List Setting) (m : Nat) : Prop where
+  eq    : X = (prevAct B m).map (subst (pendAt B P0 m))
+  nodup : (ids X).Nodup
+  act   : ∀ p ∈ pendAt B P0 m, hasId (prevAct B m) p.1.id = true
+
+theorem seamPrev_eq {a : AStr} (ha : WF a) : seamPrev a = prevAct (Fmts.toFun a.fmts) a.len := by
+  unfold seamPrev
+  by_cases h : a.len = 0
+  · simp [h, prevAct_zero]
+  · rw [if_neg h, wf_act ha]
+    congr 1
+    omega
+
+theorem prevAct_congr {g g' : Nat → Point} (k : Nat) (h : ∀ j, j < k → g j = g' j) :
+    prevAct g k = prevAct g' k :=
+  runFrom_congr k [] (fun j _ hj => h j (by omega))
+
+/-- facts about the seam used below, all derived from `WF a` -/
+theorem seam_facts {a : AStr} (ha : WF a) :
+    (ids (seamPrev a)).Nodup ∧
+    stepOk (seamPrev a) (Fmts.toFun a.fmts a.len).rem = true ∧
+    (Fmts.toFun a.fmts a.len).rem.foldl (fun c s => eraseId c s.id) (seamPrev a) = [] := by
+  rw [seamPrev_eq ha]
+  refine ⟨wf_nodup_prev ha _, wf_ok_at ha _, ?_⟩
+  have := wf_closed_ge ha a.len (Nat.le_refl _)
+  rw [prevAct_succ, stepPoint_def, wf_addEnd ha, List.append_nil] at this
+  exact this
+
+theorem seam_base {a b : AStr} (ha : WF a) (hb : WF b) (P0 : Pend) (Cn : Point)
+    (hcase :
+      (mergeCond (seamPrev a) (laterAdds b) (Fmts.toFun a.fmts a.len) (Fmts.toFun b.fmts 0).add = true ∧
+          Cn = { add := [], rem := (Fmts.toFun a.fmts a.len).rem.drop (Fmts.toFun b.fmts 0).add.length } ∧
+          P0 = (Fmts.toFun b.fmts 0).add.zip
+            ((Fmts.toFun a.fmts a.len).rem.take (Fmts.toFun b.fmts 0).add.length)) ∨
+       (mergeCond (seamPrev a) (laterAdds b) (Fmts.toFun a.fmts a.len) (Fmts.toFun b.fmts 0).add = false ∧
+          Cn = { add := (Fmts.toFun b.fmts 0).add, rem := (Fmts.toFun a.fmts a.len).rem } ∧
+          P0 = [])) :
+    RInv (Fmts.toFun b.fmts) P0 (stepPoint (seamPrev a) Cn) 1 ∧
+    stepOk (seamPrev a) Cn.rem = true ∧
+    (∀ p ∈ P0, p.1.txt = p.2.txt ∧ p.1 ∈ (Fmts.toFun b.fmts 0).add ∧
+      p.2 ∈ (Fmts.toFun a.fmts a.len).rem ∧ hasId (laterAdds b) p.2.id = false) := by
+  obtain ⟨hSn, hSok, hScl⟩ := seam_facts ha
+  have hrem0 := wf_rem0 hb
+  have hprev1 : prevAct (Fmts.toFun b.fmts) 1 = (Fmts.toFun b.fmts 0).add := by
+    rw [prevAct_succ, prevAct_zero, stepPoint_def, hrem0]; rfl
+  have hpend1 : pendAt (Fmts.toFun b.fmts) P0 1 = P0 := by
+    show pendFilter P0 (Fmts.toFun b.fmts 0).rem = P0
+    rw [hrem0, pendFilter_nil]
+  have hadd0n : (ids (Fmts.toFun b.fmts 0).add).Nodup := by
+    rw [← hprev1]; exact wf_nodup_prev hb 1
+  generalize hS : seamPrev a = S at *
+  generalize hR : (Fmts.toFun a.fmts a.len).rem = R at *
+  generalize hadd0 : (Fmts.toFun b.fmts 0).add = add0 at *
+  rcases hcase with ⟨hm, hCn, hP0⟩ | ⟨hm, hCn, hP0⟩
+  · -- merged
+    have hlen := mergeCond_length hm
+    rw [hR] at hlen
+    simp only [mergeCond, Bool.and_eq_true, hR] at hm
+    obtain ⟨⟨⟨_, ht⟩, href⟩, hlater⟩ := hm
+    have ht' : texts (R.take add0.length) = texts add0 := eq_of_beq ht
+    have href' : ids (S.filter (fun s => hasId (R.take add0.length) s.id)) = ids (R.take add0.length) := by
+      unfold sameRefs at href; exact eq_of_beq href
+    have hHsub : ∀ s ∈ R.take add0.length, s ∈ R := fun s hs => List.mem_of_mem_take hs
+    have hfilt : S.filter (fun s => hasId (R.take add0.length) s.id) = R.take add0.length := by
+      apply eq_of_ids_eq _ _ href'
+      intro s hs t ht e
+      apply ha.coherent s _ t _ e
+      · have : s ∈ S := (List.mem_filter.mp hs).1
+        rw [← hS, seamPrev_eq ha] at this
+        exact wf_mem_prev_settings this
+      · have := hHsub t ht
+        rw [← hR] at this
+        exact mem_settings_of_toFun (Or.inr this)
+    have hX : stepPoint S Cn = R.take add0.length := by
+      rw [hCn, stepPoint_def]
+      simp only [List.append_nil]
+      rw [seam_filter S R add0.length hSn hSok hScl, hfilt]
+    refine ⟨⟨?_, ?_, ?_⟩, ?_, ?_⟩
+    · rw [hX, hprev1, hpend1, hP0, map_subst_zip _ _ hadd0n hlen.symm]
+    · rw [hX, ← hfilt]
+      exact List.Nodup.sublist (List.filter_sublist.map _) hSn
+    · rw [hpend1, hprev1, hP0]
+      intro p hp
+      exact hasId_iff.mpr ⟨p.1, (List.of_mem_zip hp).1, rfl⟩
+    · rw [hCn]
+      apply stepOk_of_nodup
+      · exact List.Nodup.sublist ((List.drop_sublist _ _).map _) (stepOk_nodup hSok hSn)
+      · intro r hr
+        exact stepOk_mem hSok (List.mem_of_mem_drop hr)
+    · intro p hp
+      rw [hP0] at hp
+      have hp2 := (List.of_mem_zip hp).2
+      refine ⟨zip_txt _ _ ht' p hp, (List.of_mem_zip hp).1, hHsub _ hp2, ?_⟩
+      have : (R.take add0.length).any (fun s => hasId (laterAdds b) s.id) = false := by simpa using hlater
+      rw [List.any_eq_false] at this
+      simpa using this p.2 hp2
+  · -- not merged
+    have hX : stepPoint S Cn = add0 := by
+      rw [hCn, stepPoint_def]
+      simp only
+      rw [hScl]; rfl
+    refine ⟨⟨?_, ?_, ?_⟩, ?_, ?_⟩
+    · rw [hX, hprev1, hpend1, hP0]
+      have : subst [] = id := funext fun _ => rfl
+      rw [this, List.map_id]
+    · rw [hX]; exact hadd0n
+    · rw [hpend1, hP0]; intro p hp; cases hp
+    · rw [hCn]; exact hSok
+    · rw [hP0]; intro p hp; cases hp
+
+
+theorem rinv_step {b : AStr} (hb : WF b) (P0 : Pend)
+    (hlater : ∀ p ∈ P0, hasId (laterAdds b) p.2.id = false) (m : Nat) (hm : 1 ≤ m)
+    (X : List Setting) (h : RInv (Fmts.toFun b.fmts) P0 X m) :
+    RInv (Fmts.toFun b.fmts) P0
+      (stepPoint X { add := (Fmts.toFun b.fmts m).add,
+                     rem := (Fmts.toFun b.fmts m).rem.map (subst (pendAt (Fmts.toFun b.fmts) P0 m)) }) (m + 1) ∧
+    stepOk X ((Fmts.toFun b.fmts m).rem.map (subst (pendAt (Fmts.toFun b.fmts) P0 m))) = true := by
+  have heta : (⟨(Fmts.toFun b.fmts m).add, (Fmts.toFun b.fmts m).rem⟩ : Point) = Fmts.toFun b.fmts m := rfl
+  have hY' : (ids (stepPoint (prevAct (Fmts.toFun b.fmts) m)
+      ⟨(Fmts.toFun b.fmts m).add, (Fmts.toFun b.fmts m).rem⟩)).Nodup := by
+    rw [heta, ← prevAct_succ]; exact wf_nodup_prev hb _
+  have hXn : (ids ((prevAct (Fmts.toFun b.fmts) m).map (subst (pendAt (Fmts.toFun b.fmts) P0 m)))).Nodup := by
+    rw [← h.eq]; exact h.nodup
+  have hadd : ∀ p ∈ pendAt (Fmts.toFun b.fmts) P0 m, ∀ t ∈ (Fmts.toFun b.fmts m).add, p.2.id ≠ t.id := by
+    intro p hp t ht e
+    have h1 := hlater p (pendAt_subset hp)
+    have h2 : t ∈ laterAdds b := mem_laterAdds (by omega) ht
+    rw [hasId_false_iff] at h1
+    exact h1 t h2 e.symm
+  obtain ⟨s1, s2, s3, s4⟩ := step_rel (pendAt (Fmts.toFun b.fmts) P0 m) (prevAct (Fmts.toFun b.fmts) m)
+    (Fmts.toFun b.fmts m).add (Fmts.toFun b.fmts m).rem (wf_nodup_prev hb m) hY' (wf_ok_at hb m) hXn h.act hadd
+  rw [heta, ← prevAct_succ] at s1 s2 s3
+  rw [← h.eq] at s1 s4
+  refine ⟨⟨?_, ?_, ?_⟩, s4⟩
+  · exact s1
+  · rw [s1]; exact s2
+  · exact s3
+
+theorem iadd_sem {a b : AStr} (ha : WF a) (hb : WF b) :
+    ∃ P0 : Pend,
+      SortedKeys (a.iadd b).fmts ∧
+      (∀ j, j < a.len → Fmts.toFun (a.iadd b).fmts j = Fmts.toFun a.fmts j) ∧
+      (∀ kp ∈ (a.iadd b).fmts, kp ∈ a.fmts ∨ ∃ kp' ∈ b.fmts, kp.1 = kp'.1 + a.len) ∧
+      (∀ s ∈ (Fmts.toFun (a.iadd b).fmts a.len).add, s ∈ (Fmts.toFun b.fmts 0).add) ∧
+      (∀ s ∈ (Fmts.toFun (a.iadd b).fmts a.len).rem, s ∈ (Fmts.toFun a.fmts a.len).rem) ∧
+      (∀ k, 1 ≤ k → Fmts.toFun (a.iadd b).fmts (k + a.len) =
+        { add := (Fmts.toFun b.fmts k).add,
+          rem := (Fmts.toFun b.fmts k).rem.map (subst (pendAt (Fmts.toFun b.fmts) P0 k)) }) ∧
+      (∀ p ∈ P0, p.1.txt = p.2.txt ∧ p.1 ∈ (Fmts.toFun b.fmts 0).add ∧
+        p.2 ∈ (Fmts.toFun a.fmts a.len).rem ∧ hasId (laterAdds b) p.2.id = false) ∧
+      (∀ m, 1 ≤ m → RInv (Fmts.toFun b.fmts) P0 (prevAct (Fmts.toFun (a.iadd b).fmts) (a.len + m)) m) ∧
+      (∀ j, stepOk (prevAct (Fmts.toFun (a.iadd b).fmts) j) (Fmts.toFun (a.iadd b).fmts j).rem = true) := by
+  obtain ⟨P0, c1, c2, c3, c4, c5⟩ := iadd_char a b ha.sorted ha.bound (wf_addEnd ha) hb.sorted
+    (wf_rem_nodup_mem hb) (wf_rem0 hb)
+  have hprevn : prevAct (Fmts.toFun (a.iadd b).fmts) a.len = seamPrev a := by
+    rw [seamPrev_eq ha]; exact prevAct_congr _ c2
+  obtain ⟨b1, b2, b3⟩ := seam_base ha hb P0 (Fmts.toFun (a.iadd b).fmts a.len) c5
+  have hinv : ∀ m, 1 ≤ m →
+      RInv (Fmts.toFun b.fmts) P0 (prevAct (Fmts.toFun (a.iadd b).fmts) (a.len + m)) m := by
+    have h' : ∀ d, RInv (Fmts.toFun b.fmts) P0
+        (prevAct (Fmts.toFun (a.iadd b).fmts) (a.len + (d + 1))) (d + 1) := by
+      intro d
+      induction d with
+      | zero =>
+        rw [show a.len + (0 + 1) = a.len + 1 from rfl, prevAct_succ, hprevn]; exact b1
+      | succ d ih =>
+        have := (rinv_step hb P0 (fun p hp => (b3 p hp).2.2.2) (d + 1) (by omega) _ ih).1
+        rw [← c3 (d + 1) (by omega), Nat.add_comm (d + 1) a.len, ← prevAct_succ] at this
+        exact this
+    intro m hm
+    have e : m = (m - 1) + 1 := by omega
+    rw [e]; exact h' (m - 1)
+  refine ⟨P0, c1, c2, c4, ?_, ?_, c3, b3, hinv, ?_⟩
+  · intro s hs
+    rcases c5 with ⟨_, h, _⟩ | ⟨_, h, _⟩
+    · rw [h] at hs; cases hs
+    · rw [h] at hs; exact hs
+  · intro s hs
+    rcases c5 with ⟨_, h, _⟩ | ⟨_, h, _⟩
+    · rw [h] at hs; exact List.mem_of_mem_drop hs
+    · rw [h] at hs; exact hs
+  · intro j
+    by_cases hj : j < a.len
+    · rw [prevAct_congr j (fun i hi => c2 i (by omega)), c2 j hj]
+      exact wf_ok_at ha j
+    · by_cases hj' : j = a.len
+      · rw [hj', hprevn]; exact b2
+      · have e : j = a.len + (j - a.len) := by omega
+        have hm : 1 ≤ j - a.len := by omega
+        have := (rinv_step hb P0 (fun p hp => (b3 p hp).2.2.2) (j - a.len) hm _ (hinv _ hm)).2
+        rw [e, Nat.add_comm a.len (j - a.len), c3 _ hm, Nat.add_comm (j - a.len) a.len]
+        exact this
+
+/-! ## property-level consequences -/
+
+/-- identities shared between the two operands carry the same text -/
+def CoherentPair (a b : AStr) : Prop :=
+  ∀ s ∈ a.fmts.settings, ∀ t ∈ b.fmts.settings, s.id = t.id → s.txt = t.txt
+
+instance (a b : AStr) : Decidable (CoherentPair a b) := by unfold CoherentPair; infer_instance
+
+theorem iadd_len (a b : AStr) : (a.iadd b).len = a.len + b.len := by
+  simp [AStr.iadd, AStr.len]
+
+theorem act_left_aux {a b : AStr} (ha : WF a) (hb : WF b) {i : Nat} (hi : i < a.len) :
+    active (a.iadd b).fmts i = active a.fmts i := by
+  obtain ⟨P0, c1, c2, _⟩ := iadd_sem ha hb
+  rw [active_eq_activeFn _ c1, active_eq_activeFn _ ha.sorted]
+  exact prevAct_congr (i + 1) (fun j hj => c2 j (by omega))
+
+theorem act_right_aux {a b : AStr} (ha : WF a) (hb : WF b) (k : Nat) :
+    texts (active (a.iadd b).fmts (a.len + k)) = texts (active b.fmts k) := by
+  obtain ⟨P0, c1, _, _, _, _, _, c7, c8, _⟩ := iadd_sem ha hb
+  rw [active_eq_activeFn _ c1, wf_act hb]
+  show texts (prevAct _ (a.len + (k + 1))) = _
+  rw [(c8 (k + 1) (by omega)).eq]
+  apply texts_map_subst
+  intro p hp y hy e
+  obtain ⟨h1, h2, _, _⟩ := c7 p (pendAt_subset hp)
+  rw [← h1]
+  exact hb.coherent p.1 (mem_settings_of_toFun (Or.inl h2)) y (wf_mem_prev_settings hy) e
+
+theorem wf_empty : WF ({} : AStr) where
+  sorted := List.Pairwise.nil
+  bound := by intro kp h; cases h
+  noAddEnd := by intro kp h; cases h
+  ok := rfl
+  nodup := by intro i; exact List.nodup_nil
+  closed := rfl
+  coherent := by intro s h; cases h
+
+theorem mem_iadd_settings {a b : AStr} (ha : WF a) (hb : WF b) {s : Setting}
+    (hs : s ∈ (a.iadd b).fmts.settings) : s ∈ a.fmts.settings ∨ s ∈ b.fmts.settings := by
+  obtain ⟨P0, c1, c2, _, c4, c5, c6, c7, _, _⟩ := iadd_sem ha hb
+  obtain ⟨k, _, hk⟩ := toFun_of_mem_settings c1 hs
+  by_cases h1 : k < a.len
+  · rw [c2 k h1] at hk
+    exact Or.inl (mem_settings_of_toFun hk)
+  · by_cases h2 : k = a.len
+    · subst h2
+      rcases hk with hk | hk
+      · exact Or.inr (mem_settings_of_toFun (Or.inl (c4 s hk)))
+      · exact Or.inl (mem_settings_of_toFun (Or.inr (c5 s hk)))
+    · have e : k = (k - a.len) + a.len := by omega
+      rw [e, c6 _ (by omega)] at hk
+      rcases hk with hk | hk
+      · exact Or.inr (mem_settings_of_toFun (Or.inl hk))
+      · simp only [List.mem_map] at hk
+        obtain ⟨r, hr, hrs⟩ := hk
+        rcases subst_cases (pendAt (Fmts.toFun b.fmts) P0 (k - a.len)) r with h | ⟨p, hp, _, h⟩
+        · rw [h] at hrs; rw [← hrs]
+          exact Or.inr (mem_settings_of_toFun (Or.inr hr))
+        · rw [h] at hrs; rw [← hrs]
+          exact Or.inl (mem_settings_of_toFun (Or.inr (c7 p (pendAt_subset hp)).2.2.1))
+
+theorem iadd_wf_aux {a b : AStr} (ha : WF a) (hb : WF b) (hc : CoherentPair a b) : WF (a.iadd b) := by
+  obtain ⟨P0, c1, c2, c3, c4, c5, c6, c7, c8, c9⟩ := iadd_sem ha hb
+  have hbound : ∀ kp ∈ (a.iadd b).fmts, kp.1 ≤ (a.iadd b).len := by
+    intro kp hkp
+    rw [iadd_len]
+    rcases c3 kp hkp with h | ⟨kp', h1, h2⟩
+    · have := ha.bound kp h; omega
+    · have := hb.bound kp' h1; omega
+  have hub : Fmts.UB ((a.iadd b).len + 1) (a.iadd b).fmts := fun kp h => by
+    have := hbound kp h; omega
+  have hprev : ∀ m, 1 ≤ m → (ids (prevAct (Fmts.toFun (a.iadd b).fmts) m)).Nodup := by
+    intro m hm
+    by_cases h : m ≤ a.len
+    · rw [prevAct_congr m (fun j hj => c2 j (by omega))]
+      exact wf_nodup_prev ha m
+    · have e : m = a.len + (m - a.len) := by omega
+      rw [e]; exact (c8 _ (by omega)).nodup
+  refine ⟨c1, hbound, ?_, ?_, ?_, ?_, ?_⟩
+  · intro kp hkp hk
+    have hkp' : (kp.1, kp.2) ∈ (a.iadd b).fmts := hkp
+    have hv := Fmts.toFun_of_get?_some (Fmts.get?_eq_some_of_mem c1 hkp')
+    rw [← hv, hk, iadd_len]
+    by_cases hbl : b.len = 0
+    · rw [hbl, Nat.add_zero]
+      apply List.eq_nil_iff_forall_not_mem.mpr
+      intro s hs
+      have := c4 s hs
+      have h0 := wf_addEnd hb
+      rw [hbl] at h0
+      rw [h0] at this; cases this
+    · rw [Nat.add_comm, c6 _ (by omega)]
+      exact wf_addEnd hb
+  · exact (replayOk_iff _ c1 _ hub).mpr (fun j _ => c9 j)
+  · intro i
+    rw [active_eq_activeFn _ c1]
+    exact hprev (i + 1) (by omega)
+  · rw [active_eq_activeFn _ c1, iadd_len]
+    show prevAct _ (a.len + (b.len + 1)) = []
+    rw [(c8 (b.len + 1) (by omega)).eq, wf_closed_ge hb b.len (Nat.le_refl _)]
+    rfl
+  · intro s hs t ht e
+    rcases mem_iadd_settings ha hb hs with h1 | h1 <;> rcases mem_iadd_settings ha hb ht with h2 | h2
+    · exact ha.coherent s h1 t h2 e
+    · exact hc s h1 t h2 e
+    · exact (hc t h2 s h1 e.symm).symm
+    · exact hb.coherent s h1 t h2 e
+
+theorem plain_right_aux {a : AStr} (ha : WF a) {j : Nat} (hj : a.len ≤ j) : active a.fmts j = [] := by
+  rw [wf_act ha]; exact wf_closed_ge ha j hj
+
+end ConcatL
